@@ -479,3 +479,55 @@ bn!(BUintD8, BIntD8, u8);
 bn!(BUintD16, BIntD16, u16);
 bn!(BUintD32, BIntD32, u32);
 bn!(BUint, BInt, u64);
+
+// ------------------------------------------------------------------------------------------------
+/// primitive integers as bit patterns (for cast / conversion specifications)
+pub trait Prim: Copy + crate::nd::Nd + PartialEq + core::fmt::Debug {
+    const PBITS: u32;
+    const PSIGNED: bool;
+    /// bit i of the two's-complement pattern, sign-/zero-extended beyond the width
+    fn pbit(self, i: u32) -> bool;
+    fn pneg(self) -> bool;
+}
+macro_rules! prim {
+    ($($t:ty : $s:expr),*) => {$(
+        impl Prim for $t {
+            const PBITS: u32 = <$t>::BITS;
+            const PSIGNED: bool = $s;
+            #[inline(always)] fn pbit(self, i: u32) -> bool {
+                if i < <$t>::BITS { (self >> i) & 1 == 1 } else { self.pneg() }
+            }
+            #[allow(unused_comparisons)]
+            #[inline(always)] fn pneg(self) -> bool { self < 0 }
+        }
+    )*};
+}
+prim!(u8: false, u16: false, u32: false, u64: false, u128: false, usize: false, i8: true, i16: true, i32: true, i64: true, i128: true, isize: true);
+
+/// bit i of a digit array read as a (signed or unsigned) integer, extended beyond its width
+#[inline(always)]
+pub fn xbit<D: Dig, const N: usize>(d: &[D; N], signed: bool, i: u32) -> bool {
+    if i < D::BITS * N as u32 { dbit(d, i) } else { signed && dneg(d) }
+}
+
+/// Does the integer denoted by `src` (signed or unsigned reading) lie in the range of a `wt`-bit target?
+/// All bits at positions >= lo (lo = wt for an unsigned target, wt - 1 for a signed one) of the infinitely
+/// extended source pattern must equal the source sign, and an unsigned target needs a non-negative source.
+#[inline(always)]
+pub fn fits_in<D: Dig, const N: usize>(src: &[D; N], s_signed: bool, wt: u32, t_signed: bool) -> bool {
+    let neg = s_signed && dneg(src);
+    if !t_signed && neg { return false; }
+    let lo = if t_signed { wt - 1 } else { wt };
+    let mut ok = true;
+    let mut k = 0;
+    while k < N {
+        let base = k as u32 * D::BITS;
+        if base + D::BITS > lo {
+            let mask: u64 = if base >= lo { D::MAXD.to_u64() } else { (D::MAXD.to_u64() << (lo - base)) & D::MAXD.to_u64() };
+            let want = if neg { mask } else { 0 };
+            ok &= src[k].to_u64() & mask == want;
+        }
+        k += 1;
+    }
+    ok
+}
